@@ -1,4 +1,5 @@
 // ---- common prelude (hand-written, trusted where marked): included by every unit
+#![feature(pattern, allocator_api)]
 #![allow(unused_imports, unused_variables, dead_code, unused_mut, unused_macros, unreachable_code, unused_assignments, non_snake_case, unused_parens, unused_braces)]
 use vstd::prelude::*;
 use vstd::string::StringSliceAdditionalSpecFns;
